@@ -281,7 +281,7 @@ impl CaseDriver for Convert {
         let names: Vec<String> = family().iter().enumerate().map(|(i, s)| format!("{i}: {}", s.name)).collect();
         Describe {
             rule: format!(
-                "{} stacks ({}) x cell metals 1..=stack height x outline {} periods (a period box = lcm of the layer pitches per direction) — all free; then up to {} cuts, {} assignments and {} instance(s) chosen from the complete menus (cuts: every in-range crossing whose track layer is inside the cell's metals and whose crossing layer is adjacent in the stack; assignments: the same with both layers inside the cell's metals, second net equal or different; instances: a 1-metal or 2-metal child of one period box, or a 0-metal child of one primitive pitch (which must block nothing), at every primitive-pitch position (both directions, on or off the period grid of the layers it reaches) that keeps it inside the outline, in all 4 reflections; a single instance optionally with a twin abutting it along x or along y), cut listing order normal / reversed, with at most {} departures from the empty cell in total (deviation bound). State = (stack, cell); non-trivial = at least one cut, assignment or instance.",
+                "{} stacks ({}) x cell metals 1..=stack height x outline {} periods (a period box = lcm of the layer pitches per direction) — all free; then up to {} cuts, {} assignments and {} instance(s) chosen from the complete menus (cuts: every in-range crossing whose track layer is inside the cell's metals and whose crossing layer is adjacent in the stack; assignments: the same with both layers inside the cell's metals, second net equal or different; instances: a 1-metal or 2-metal child of one period box, or a 0-metal child of one primitive pitch (which must block nothing), at every primitive-pitch position (both directions, on or off the period grid of the layers it reaches) that keeps it inside the outline, in all 4 reflections; a single instance optionally with a twin abutting it, or overlapping it by half, along x or along y), cut listing order normal / reversed, with at most {} departures from the empty cell in total (deviation bound). State = (stack, cell); non-trivial = at least one cut, assignment or instance.",
                 family().len(),
                 names.join("; "),
                 t.pick("{1,2} x {1,2}", "{1,2} x {1,2}, 3 x 1, 1 x 3"),
@@ -294,7 +294,7 @@ impl CaseDriver for Convert {
                 "tracks are instantiated period by period as the MetalLayer documentation describes; signal track n of a layer is the n-th signal track counted from the outline origin (this is also how the exporter picks the track to cut / assign)".into(),
                 "per period, an instance whose cell reaches the layer and whose reflection-aware bounding box overlaps the period blocks, on every track of that period, the extent of that bounding box along the track".into(),
                 "a rail shared by two adjacent periods through `overlap` may be emitted once or once per period: exact duplicates of rail rectangles are collapsed on both sides; zero-area rectangles are ignored; everything else is compared as a multiset of (layer, rectangle, net)".into(),
-                "Err is an allowed result (counted); not judged against the full reference (counted as unjudged; only 'no wire inside a requested cut' is checked): overlapping cut / blocked spans, spans reaching beyond the far outline edge, an assignment on a cut or exactly on a piece boundary, two different nets on one piece; a cut reaching below coordinate 0 is expected to be clipped at the outline edge".into(),
+                "Err is an allowed result (counted); not judged against the full reference (counted as unjudged; only 'no wire inside a requested cut' and 'no signal wire inside the span an instance blocks' are checked): overlapping cut / blocked spans, spans reaching beyond the far outline edge, an assignment on a cut or exactly on a piece boundary, two different nets on one piece; a cut reaching below coordinate 0 is expected to be clipped at the outline edge".into(),
                 "an assignment whose crossing lies under an instance still yields its via; on the blocked layer there is no wire piece to carry the net".into(),
                 "layer purpose of the emitted elements and the raw instances are not judged".into(),
             ],
@@ -380,11 +380,18 @@ impl CaseDriver for Convert {
         // a twin of the (only) instance right next to it, along x or along y, where it fits inside the outline: two
         // instances within one period of the layers running that way
         if insts.len() == 1 {
-            let tw = c.cost(3, "instance-twin");
+            // (3, 4: the twin overlaps the instance by half along x / along y - an error, or at least no signal wire
+            // inside either of them)
+            let tw = c.cost(5, "instance-twin");
             if tw != 0 {
                 let i0 = insts[0].clone();
                 let ch = &children[i0.child];
-                let (dx, dy) = if tw == 1 { (ch.size.0, 0) } else { (0, ch.size.1) };
+                let (dx, dy) = match tw {
+                    1 => (ch.size.0, 0),
+                    2 => (0, ch.size.1),
+                    3 => ((ch.size.0 / 2).max(1), 0),
+                    _ => (0, (ch.size.1 / 2).max(1)),
+                };
                 let twin = InstIn { child: i0.child, loc: (i0.loc.0 + dx, i0.loc.1 + dy), rh: i0.rh, rv: i0.rv };
                 if im.iter().any(|m| m.child == twin.child && m.loc == twin.loc && m.rh == twin.rh && m.rv == twin.rv) {
                     insts.push(twin);
@@ -463,9 +470,8 @@ impl CaseDriver for Convert {
             // same track
             if let Some((_, got, _)) = obs.iter().find(|(n, _, _)| n == "top") {
                 for (li, (ts, tw), (a, b), is_blk) in tm::removed_spans(sd, cell, &case.children, STATEMENT) {
-                    // (blocked spans are left out: a rail shared by two periods is legitimately drawn by the period the
-                    // instance does not touch)
-                    if b <= a || is_blk {
+                    // (blocked spans of signal tracks only, see `removed_spans`)
+                    if b <= a {
                         continue;
                     }
                     let horiz = sd.layers[li].horiz;
